@@ -99,6 +99,9 @@ func (g *Gen) run() {
 	for _, r := range c.Requires {
 		pre = append(pre, g.transBool(r.E, env))
 	}
+	for _, r := range c.Trusts {
+		g.assumptions["trusted (unchecked) postcondition of "+g.fnName+": "+r.E.String()] = true
+	}
 	for _, r := range c.Assumes {
 		pre = append(pre, g.transBool(r.E, env))
 		g.assumptions["unchecked assumption about the callers of "+g.fnName+": "+r.E.String()] = true
